@@ -44,10 +44,13 @@ pub fn supported_numbers() -> Vec<u16> {
     let mut b = MessageBuilder::new();
     let mut out = vec![];
     for n in 0..4096u16 {
-        let mut vg = ValGen::new(crate::util::rng(1, 1), crate::util::rng(1, 2), crate::util::rng(1, 3));
-        match b.build_generated_message(&mut vg, n) {
-            Err(RtcmError::EncodingNotSupported) => {}
-            _ => out.push(n),
+        // supported = the library's generator can build it (which error an unsupported number gets is not fixed by any property)
+        let ok = (0..3u64).any(|k| {
+            let mut vg = ValGen::new(crate::util::rng(1 + k, 1), crate::util::rng(1 + k, 2), crate::util::rng(1 + k, 3));
+            b.build_generated_message(&mut vg, n).is_ok()
+        });
+        if ok {
+            out.push(n);
         }
     }
     out
